@@ -820,6 +820,7 @@ package sse
 //@   ensures ends_with_a_reason: !ignoreEOF && (forall(x, old(ncalls()), ncalls(), isyield(x) ==> cret(x, "yield", 0))) ==> ncalls() > old(ncalls()) && isyield(ncalls()-1) && yielderr(ncalls()-1) != nil
 //@   invariant 0 parser_alive: p != nil && p.fieldScanner != nil && p.inputScanner != nil && !p.fieldScanner.keepComments
 //@   invariant 0 token_in_progress: ptokinv(p)
+//@   entry 0 nothing_pending_before_the_first_field: !dirty && sb == "" && typ == "" && ncalls() == old(ncalls()) + 1
 //@   invariant 0 no_error_yielded_yet: forall(x, old(ncalls()), ncalls(), isyield(x) ==> yielderr(x) == nil && cret(x, "yield", 0))
 //@   invariant 0 data_buffer_holds_whole_lines: len(sb) == 0 || sb[len(sb)-1] == '\n'
 //@   invariant 0 retries_valid: forall(x, old(ncalls()), ncalls(), iscall(x, "onRetry") ==> carg(x, "onRetry", 0) >= 0)
